@@ -165,7 +165,7 @@ def r2_subparsers(ctx):
     with_defaults = set()
     for c in calls_in(mk.node):
         if isinstance(c.func, ast.Attribute) and c.func.attr == 'set_defaults' and isinstance(c.func.value, ast.Name):
-            if any(k.arg is None and isinstance(k.value, ast.Name) and k.value.id == 'defaults' for k in c.keywords):
+            if any(k.arg is None and isinstance(k.value, ast.Name) and k.value.id == 'defaults' for k in c.keywords):  # `defaults` is a parameter name (public interface of make_main_parser)
                 with_defaults.add(c.func.value.id)
     for name, call in created.items():
         par = kwarg(call, 'parents')
@@ -348,7 +348,7 @@ def r6_custom_backends(ctx):
     setup = corpus.extra_files.get('setup.py', '')
     ctx.check('find_namespace_packages' in setup and 'packages=find_namespace_packages' in setup.replace(' ', ''), 'C19.R6', 'setup.py|find-namespace-packages', 'setup.py', 'setup.py packages the project with find_namespace_packages', 'setup.py no longer uses find_namespace_packages')
     lb = corpus.module('utils').functions.get('load_backend')
-    ok = lb is not None and "f'..backends.{name}'" in src(lb.node, 800) and 'mod.Client' in src(lb.node, 800)
+    ok = lb is not None and "f'..backends.{name}'" in src(lb.node, 800) and any(isinstance(r, ast.Return) and any(isinstance(a, ast.Attribute) and a.attr == 'Client' for a in ast.walk(r)) for r in ast.walk(lb.node))
     ctx.check(ok, 'C19.R6', f'{func_label(lb)}|load-backend', loc(lb, lb.node), 'load_backend imports replicat.backends.<name> and returns its Client', 'load_backend changed how the adapter module / Client is located')
     # the three consumers of the constructor signature agree
     fns = [corpus.module('config').functions.get('config_for_backend'), corpus.module('cli').functions.get('parser_for_backend'), corpus.module('main').functions.get('_instantiate_backend')]
@@ -357,12 +357,12 @@ def r6_custom_backends(ctx):
             raise AnalysisError('C19.R6: signature consumer missing')
         ctx.analysed(f)
         s = src(f.node, 3000)
-        ok = 'inspect.signature(' in s and 'KEYWORD_ONLY' in s and 'is not arg.KEYWORD_ONLY' in s
+        ok = 'inspect.signature(' in s and any(isinstance(c, ast.Compare) and isinstance(c.ops[0], ast.IsNot) and isinstance(c.comparators[0], ast.Attribute) and c.comparators[0].attr == 'KEYWORD_ONLY' and isinstance(c.left, ast.Attribute) and c.left.attr == 'kind' for c in ast.walk(f.node))
         ctx.check(ok, 'C19.R6', f'{func_label(f)}|keyword-only-parameters', loc(f, f.node), f'{f.name}: backend options are exactly the keyword-only parameters of the Client constructor', f'{f.name}: selects another parameter kind than the other two consumers')
     pf = fns[1]
-    ctx.check("name.replace('_', '-')" in src(pf.node, 3000), 'C19.R6', f'{func_label(pf)}|cli-name-mapping', loc(pf, pf.node), 'CLI option name = parameter name with _ -> -', 'CLI option naming changed')
+    ctx.check(".replace('_', '-')" in src(pf.node, 3000), 'C19.R6', f'{func_label(pf)}|cli-name-mapping', loc(pf, pf.node), 'CLI option name = parameter name with _ -> -', 'CLI option naming changed')
     bb = corpus.module('config').classes['BaseBackendConfig'].methods['apply_known']
-    ctx.check("field.name.replace('_', '-')" in src(bb.node, 2000), 'C19.R6', f'{func_label(bb)}|file-name-mapping', loc(bb, bb.node), 'file option name = parameter name with _ -> -', 'file option naming changed')
+    ctx.check(".name.replace('_', '-')" in src(bb.node, 2000), 'C19.R6', f'{func_label(bb)}|file-name-mapping', loc(bb, bb.node), 'file option name = parameter name with _ -> -', 'file option naming changed')
     be = corpus.module('config').functions.get('backend_env_option')
     ok = be is not None and src(be.node.body[-1]) == "return f'{backend_type.short_name}_{option_name}'.upper()"
     ctx.check(ok, 'C19.R6', f'{func_label(be)}|env-name', loc(be, be.node), 'environment name = <SHORT_NAME>_<OPTION> upper-cased (used by the config class and the help text)', 'environment variable naming changed')
